@@ -5,7 +5,7 @@
 From Coq Require Import List Bool Arith NArith Lia.
 Import ListNotations.
 From Verif Require Import SendReq.Model SendReq.ProofsBound SendReq.ProofsSelect SendReq.ProofsLoop
-  SendReq.ProofsFlags SendReq.ProofsResult SendReq.ProofsLasso SendReq.ProofsBudget SendReq.Cache SendReq.ProofsCache SendReq.ProofsCancel.
+  SendReq.ProofsFlags SendReq.ProofsResult SendReq.ProofsLasso SendReq.ProofsBudget SendReq.Cache SendReq.ProofsCache SendReq.ProofsCancel SendReq.ProofsAsync.
 
 (* --- boundedness --------------------------------------------------------------------------------------------- *)
 (* Every attempt uses up one of the maxReplicaAttempt (10) attempts of some replica; attempts are only ever given back by
@@ -129,6 +129,16 @@ Theorem C10_cancel_stops : forall c script rands sleeps,
 Proof. exact run_cancel. Qed.
 Print Assumptions C10_cancel_stops.
 
+(* --- the async path -------------------------------------------------------------------------------------------------- *)
+(* SendReqAsync (first attempt by initForAsyncRequest + handleAsyncResponse, then next()) is the same [run] as SendReq, unless an
+   interruptible request was already killed when the call started: initForAsyncRequest does not look at the kill flag, so the
+   async path still sends its first attempt (ex_async_killed_before).  Structural proof: no step function reads [c_async]. *)
+Theorem C10_async_same_run : forall c script rands sleeps,
+  c_kill c <> TPre \/ c_interruptible c = false ->
+  run (with_async c true) script rands sleeps = run (with_async c false) script rands sleeps.
+Proof. exact (run_async_same true). Qed.
+Print Assumptions C10_async_same_run.
+
 (* --- sequences of calls on the same cached region ----------------------------------------------------------------- *)
 (* [run_st] = [run] that also PREDICTS the cache state the call leaves (cached leader, memoised proxy, per-store liveness / slow
    mark / epoch staleness / load estimate; a region invalidated by the call is loaded again from PD): the check compares this
@@ -223,4 +233,11 @@ Example ex_two_calls :
   map (fun cx => (c_leader0 (fst cx), c_proxy0 (fst cx), map live (c_reps (fst cx))))
       (run_seq c_fw_ok [([ORpcErr Unreachable], [], [55%N]); (repeat OStaleCommand 40, [], [])] 0) =
   [(0, None, [Reachable; Reachable; Reachable]); (0, Some 1, [Unreachable; Reachable; Reachable])].
+Proof. vm_compute. auto. Qed.
+
+(* the hypothesis of C10_async_same_run is needed: killed before the call, the sync path sends nothing, the async path one attempt *)
+Example ex_async_killed_before :
+  run (with_async (c_killed TPre true) false) [] [] [] = ([], RError) /\
+  run (with_async (c_killed TPre true) true) [] [] [] = ([EAtt 0 false false false], RSuccess 0) /\
+  run (with_async (c_killed (TAtt 0) true) true) (repeat (ORpcErr Reachable) 5) [] [] = run (with_async (c_killed (TAtt 0) true) false) (repeat (ORpcErr Reachable) 5) [] [].
 Proof. vm_compute. auto. Qed.
